@@ -355,3 +355,21 @@ Definition agree3 (d1 d2 d3 : N) (c : N * N * N) : bool :=
   match c with (m, t, s) => obs_eqb (predict d1 m t s) (predict d2 m t s) && obs_eqb (predict d2 m t s) (predict d3 m t s) end.
 Definition agree2 (d1 d2 : N) (c : N * N * N) : bool :=
   match c with (m, t, s) => obs_eqb (predict d1 m t s) (predict d2 m t s) end.
+
+(* ---------------------------------------------------------------- text vs binary (C10) *)
+(* "natural" cells: a method asked of the binary token and of the text scalar / container that render the same logical
+   value: (method, binary token kind, text token kind).  Typed hints on the typed tokens (text scalars are untyped: under
+   `any` they are strings, which is why the untyped methods are only paired with strings), sequences on arrays, maps on
+   objects, ignored_any on everything. *)
+Definition ints_signed : list N := [M_i8; M_i16; M_i32; M_i64].
+Definition ints_unsigned : list N := [M_u8; M_u16; M_u32; M_u64].
+Definition natural_cells : list (N * N * N) :=
+  [(M_bool, T_bool, T_tbool)] ++
+  flat_map (fun m => [(m, T_i32, T_tint); (m, T_u32, T_tint); (m, T_i64, T_tint); (m, T_u64, T_tint)]) (ints_signed ++ ints_unsigned) ++
+  flat_map (fun m => [(m, T_i32, T_tneg); (m, T_i64, T_tneg)]) ints_signed ++
+  flat_map (fun m => [(m, T_f32, T_tfloat); (m, T_f64, T_tfloat)]) [M_f32; M_f64] ++
+  flat_map (fun m => [(m, T_quoted, T_tword); (m, T_unquoted, T_tword); (m, T_idk, T_tword)])
+           [M_any; M_char; M_str; M_string; M_identifier; M_option; M_newtype_struct; M_enum] ++
+  flat_map (fun m => [(m, T_arr, T_tarr)]) [M_any; M_seq; M_tuple; M_tuple_struct] ++
+  flat_map (fun m => [(m, T_obj, T_tobj)]) [M_map; M_struct] ++
+  flat_map (fun tb => map (fun tx => (M_ignored_any, tb, tx)) text_value_tokens) bin_value_tokens.
